@@ -484,7 +484,11 @@ impl Iterator for EntriesIter {
             // Return deferred directories if we've already processed their children
             if self.opts.contents_first && self.iters.len() < self.deferred.len() {
                 if let Some(entry) = self.deferred.pop() {
-                    return Some(Ok(entry));
+                    // Deferred directories are subject to the filter like everything else
+                    if self.filter.as_mut().map_or(true, |filter| (filter)(&entry)) {
+                        return Some(Ok(entry));
+                    }
+                    continue;
                 }
             }
 
@@ -507,9 +511,11 @@ impl Iterator for EntriesIter {
         }
 
         // Return root directory for deferred case
-        if self.opts.contents_first && self.iters.len() < self.deferred.len() {
+        while self.opts.contents_first && self.iters.len() < self.deferred.len() {
             if let Some(entry) = self.deferred.pop() {
-                return Some(Ok(entry));
+                if self.filter.as_mut().map_or(true, |filter| (filter)(&entry)) {
+                    return Some(Ok(entry));
+                }
             }
         }
 
